@@ -1099,6 +1099,11 @@ func (em *emitter) emitForRange(node *ast.ForRange) {
 	inForRange := em.inForRange
 	em.inForRange = true
 
+	// A 'break' in the body breaks the range statement and not a 'for',
+	// 'switch' or 'select' statement that encloses it.
+	breakable := em.breakable
+	em.breakable = false
+
 	em.fb.enterScope()
 
 	vars := node.Assignment.Lhs
@@ -1175,6 +1180,7 @@ func (em *emitter) emitForRange(node *ast.ForRange) {
 	em.fb.exitScope()
 	em.fb.exitScope()
 	em.inForRange = inForRange
+	em.breakable = breakable
 
 	if node.Else != nil {
 		endForLabel := em.fb.newLabel()
